@@ -194,6 +194,10 @@ fn ctx() -> Option<Arc<Ctx>> {
     CTX.read().unwrap_or_else(|e| e.into_inner()).clone()
 }
 
+pub fn current_ctx() -> Option<Arc<Ctx>> {
+    ctx()
+}
+
 struct H;
 impl Handler for H {
     fn now(&self) -> Option<DateTime<Local>> {
